@@ -38,7 +38,48 @@ def run_c03(ctx, C):
     codec_common(ctx, C, [GEN_CODEC], [DRV_CODEC])
 
 
+GEN_CURSOR = dict(module="Gen_Cursor", name="cursor", constants=dict(Window=lambda ctx: 12 if ctx.thorough else 2), trace=False, timeout=3000)
+DRV_BYTES = dict(name="randbytes", driver="randbytes", n_quick=4000, n_thorough=100000)
+
+
+GEN_INSERT = dict(module="Gen_Insert", name="insert", trace=False)
+GEN_LIBERTY = dict(module="Gen_Liberty", name="liberty")
+
+
+def run_c05(ctx, C):
+    codec_common(ctx, C, [GEN_CODEC, GEN_LIBERTY], [DRV_CODEC])
+
+
+def run_c12(ctx, C):
+    codec_common(ctx, C, [GEN_CODEC, GEN_LIBERTY, GEN_CURSOR], [DRV_CODEC, dict(DRV_BYTES, n_quick=1500, n_thorough=30000)])
+
+
+def run_c13(ctx, C):
+    codec_common(ctx, C, [GEN_INSERT], [], traces=())
+
+
+def run_c04(ctx, C):
+    codec_common(ctx, C, [GEN_CURSOR], [DRV_BYTES])
+
+
 PLANS = {
+    "C05": dict(level="model_checking", run=run_c05, assumptions=ASSUME_CODEC,
+                rule="direction 1: library octets for every pool message compared with the TLA+ encoder and parsed by the strict TLA+ parser (zero reserved "
+                     "bits, exact lengths, chain ends in 0, fields recovered); direction 2: TLC prints datagrams of the reference encoder with sender "
+                     "liberties (critical/reserved bits, RESERVED fields, CP R bit, all interleavings of 4-5 transforms, AKA' attribute orders) and the "
+                     "library must decode them to the stripped value. distinct = distinct vectors"),
+    "C12": dict(level="model_checking", run=run_c12, assumptions=ASSUME_CODEC,
+                rule="canonical datagrams (reference encoder) must re-encode byte-identically; mutants (liberties; every size/length/count site x values x "
+                     "windows; consistent re-framing; random damage) that the decoder accepts must reach a fixed point after one decode/encode step; "
+                     "TLC decides canonicity and judges recorded decode/encode/decode/encode chains"),
+    "C13": dict(level="model_checking", run=run_c13, assumptions=ASSUME_CODEC, exhaustive=True,
+                rule="exhaustive single insertions: all 239 unsupported type codes x every position of 6 base messages x both critical-flag values; body "
+                     "lengths from a pool (thorough: every length 0..1024 for three type codes); sampled double insertions; through message and chain "
+                     "decoders; expectation = the message without the inserted payload, or an error when critical"),
+    "C04": dict(level="fault_enumeration", run=run_c04, assumptions=ASSUME_CODEC + ["termination is observed through a 20 s watchdog per call, not proved"],
+                rule="TLC enumerates templates x every size/length/count site x field values (all 256 values of 8-bit fields, boundary sets of 16-bit "
+                     "fields) x remaining-length windows; each mutant is fed to every decoding entry point in three capacity layouts under recover "
+                     "and a watchdog; expected outcome from the reference parser. distinct = distinct mutants"),
     "C03": dict(level="model_checking", run=run_c03, assumptions=ASSUME_CODEC,
                 rule="TLC enumerates the message pools of Pools.tla (every payload kind with boundary field values and sizes, every ordered pair "
                      "of kinds, long chains, maximum sizes); each message is encoded and decoded by the library and the projection compared with "
